@@ -123,9 +123,47 @@ def block_constructs(prog, f, bb):
     c = f.call_at(bb)
     if c is not None and not c.is_ptr:
         g = prog.fns.get(c.res)
-        if g is not None and g.full and g.is_closure and g.root_fn().path == f.root_fn().path:
+        members = getattr(f, "members", {f.root_fn().path})
+        if g is not None and g.full and g.is_closure and g.root_fn().path in members:
             out |= constructs(prog, g)
+        # combinators: a closure or constructor handed to the call
+        # (`.map(Value::Int)`, `.ok_or_else(|| overflow(..))`, `.or_else(|e| ..)`)
+        # may construct on behalf of this block
+        if g is None or not g.full:
+            for a in c.args:
+                k = mir.op_const(a)
+                if k is not None and "fn" in k:
+                    out |= _ctor_or_fn_constructs(prog, k["fn"])
+                    continue
+                if not mir.is_place_operand(a):
+                    continue
+                cp = f.canon_op(a)
+                if cp[0][0] == "agg":
+                    st = f.stmts(cp[0][1])[cp[0][2]]
+                    kd = st[2][1]
+                    if kd.get("k") == "closure":
+                        h = prog.fns.get(kd["def"])
+                        if h is not None and h.full:
+                            out |= constructs(prog, h)
+                            for c2 in h.calls():
+                                h2 = prog.fns.get(c2.res) if not c2.is_ptr else None
+                                if h2 is not None and h2.full and h2.is_closure:
+                                    out |= constructs(prog, h2)
     return out
+
+
+def _ctor_or_fn_constructs(prog, path):
+    """A function item used as a value: an enum-variant constructor
+    (`Value::Int`) builds that variant; a local function builds what it builds."""
+    if "::" in path:
+        adt, var = path.rsplit("::", 1)
+        a = prog.adts.get(adt)
+        if a is not None and any(v["name"] == var for v in a["variants"]):
+            return {(adt, var)}
+    g = prog.fns.get(path)
+    if g is not None and g.full:
+        return constructs(prog, g)
+    return set()
 
 
 class PairTable:
